@@ -784,7 +784,72 @@ def build_schema_setitem_additional(world, params):
     return inst.__setitem__, dict(alias=alias, value=world.build(params["value"])), extra
 
 
-BUILDERS = {"schema_setitem_additional": build_schema_setitem_additional, "field_first_parse": _build_field_loop("field_first_parse"), "data_first_parse": _build_field_loop("data_first_parse"),
+def build_gen_dataclass_registry(world, params):
+    """a real JsonSchemaGenerator whose registry (defs, names) is the ENTRY state of the model: every universe element that
+    occurs as a registered type becomes a distinct real data class (two declared int fields); `t` is the class with the
+    model's parser name"""
+    from utype import Schema
+    from utype.specs.json_schema.generator import JsonSchemaGenerator
+    sf = params["self"]["fields"]
+    td = params["t"]
+    pname = td["fields"]["__parser__"]["fields"]["name"].get("lit")
+    if not isinstance(pname, str) or not pname.isidentifier():
+        raise Unbuildable("class name %r is no identifier" % (pname,))
+    if "map" not in sf.get("names", {}) or "map" not in sf.get("defs", {}):
+        raise Unbuildable("no registry in this case")
+    classes = {}
+
+    def cls_of(d):
+        ix = d.get("v", d.get("t", d.get("id")))
+        if ix is None:
+            raise Unbuildable("registry entry is not an object of the universe: %r" % (d,))
+        if ix not in classes:
+            c = type(pname, (Schema,), {"__annotations__": {"f1": int, "f2": int}, "__module__": __name__})
+            c.__parser__.name = pname
+            classes[ix] = c
+        return classes[ix]
+    ioi = td["fields"]["__parser__"]["fields"].get("in_out_identical", {}).get("lit")
+    if ioi is False:
+        # `in_out_identical` (a property computed from the fields) decides the `_O` suffix of the proposed name in the
+        # output view: a field that is never output makes it False
+        from utype import Field
+        t = type(pname, (Schema,), {"__annotations__": {"f1": int, "f2": int}, "f2": Field(no_output=True, default=0), "__module__": __name__})
+        t.__parser__.name = pname
+        classes[td.get("id")] = t
+    t = cls_of(td)
+    names, defs = {}, {}
+    for kd, vd in sf["names"]["map"]:
+        if not isinstance(kd.get("lit"), str):
+            raise Unbuildable("a name of the registry is no str: %r" % (kd,))
+        names[kd["lit"]] = cls_of(vd)
+    for kd, vd in sf["defs"]["map"]:
+        defs[cls_of(kd)] = {"type": "object"}
+    gen = JsonSchemaGenerator(t, defs=defs, names=names, output=bool(sf.get("output", {}).get("lit", False)))
+    if isinstance(sf.get("ref_prefix", {}).get("lit"), str):
+        gen.ref_prefix = sf["ref_prefix"]["lit"]
+
+    def is_reference(schema, prefix):
+        return isinstance(schema, dict) and list(schema) == ["$ref"] and isinstance(schema["$ref"], str) and schema["$ref"].startswith(prefix)
+
+    def ref_target(schema, prefix):
+        return schema["$ref"][len(prefix):]
+
+    def named(m, ty):
+        return any(v is ty for v in m.values())
+
+    def all_names_nonempty(m):
+        return all(isinstance(k, str) and len(k) > 0 for k in m)
+
+    def at_entry_kept(m, old_m, i):
+        items, old_items = list(m.items()), list(old_m.items())
+        return i < len(items) and items[i][0] == old_items[i][0] and items[i][1] is old_items[i][1]
+    hp = dict(_schema_helpers())
+    hp.update(is_reference=is_reference, ref_target=ref_target, named=named, all_names_nonempty=all_names_nonempty,
+              at_entry_kept=at_entry_kept)
+    return gen.generate_for_dataclass, dict(t=t), dict(self=gen, **hp)
+
+
+BUILDERS = {"gen_dataclass_registry": build_gen_dataclass_registry, "schema_setitem_additional": build_schema_setitem_additional, "field_first_parse": _build_field_loop("field_first_parse"), "data_first_parse": _build_field_loop("data_first_parse"),
             "rule_parse": build_rule_parse, "schema_setter": build_schema_setter, "schema_deleter": build_schema_deleter, "parse_pos_type": build_parse_pos_type, "parse_addition": build_parse_addition, "apply": build_apply, "call": build_call, "seq_args": build_seq_args, "tuple_args": build_tuple_args, "map_args": build_map_args, "contains": build_contains,
             "logical_parse": build_logical_parse, "parse_value": build_parse_value, "parse_output_value": build_parse_output_value}
 
